@@ -1,6 +1,7 @@
 package engine
 
 import (
+	"os"
 	"fmt"
 	"reflect"
 	"go/constant"
@@ -73,7 +74,7 @@ func (fr *frame) externalModel(name string, cc *ssa.CallCommon, args []T, st *St
 		c.assume(st, Not(IsNilIface(e)))
 		return []T{e}, true
 	case "fmt.Sprintf":
-		if r, ok := fr.sprintfModel(cc); ok {
+		if r, ok := fr.sprintfModel(cc); ok && os.Getenv("GOVC_NO_SPRINTF") == "" {
 			return []T{r}, true
 		}
 		return []T{c.fresh("sprintf", "Str")}, true
